@@ -109,6 +109,8 @@ struct Inst
     }
 };
 
+static int g_rs = 0;          // rate scaling (key scaling of the envelope rates) of the case's instruments: 0..3; the sustain rate stays 0, the tone holds
+static bool g_longhold = false;
 static void pure_tone(OPN2_Instrument &in, int audible_op, uint8_t tl)
 {
     memset(&in, 0, sizeof(in));
@@ -123,7 +125,7 @@ static void pure_tone(OPN2_Instrument &in, int audible_op, uint8_t tl)
     {
         in.operators[op].dtfm_30 = 0x01;                 // DT 0, MUL 1
         in.operators[op].level_40 = op == audible_op ? tl : 127;
-        in.operators[op].rsatk_50 = 0x1F;                // attack max
+        in.operators[op].rsatk_50 = (uint8_t)((g_rs << 6) | 0x1F);   // attack max, rate scaling of the case
         in.operators[op].amdecay1_60 = 0;
         in.operators[op].decay2_70 = 0;
         in.operators[op].susrel_80 = 0x0F;               // sustain level 0 (full), release max
@@ -330,7 +332,7 @@ static bool setup(Ctx &t)
     t.native = !pcm_eff;
     for(size_t i = 0; i < synth.m_chips.size(); i++) if(synth.m_chips[i]->isRunningAtPcmRate() != pcm_eff || (int)synth.m_chips[i]->family() != cfam) c.inconclusive = true;
     const char *en = NULL; API("opn2_chipEmulatorName", en = opn2_chipEmulatorName(I.dev));
-    t.cfg = vfmt("core %d (%s) family req %d/eff %d rate %ld pcm req %d/eff %d chips %d scen %s key %d", x.core, en ? en : "?", x.fam, fam, x.rate, x.pcm, pcm_eff ? 1 : 0, x.chips, SCEN_NAME[x.scen], x.key);
+    t.cfg = vfmt("core %d (%s) family req %d/eff %d rate %ld pcm req %d/eff %d chips %d scen %s key %d rate-scaling %d%s", x.core, en ? en : "?", x.fam, fam, x.rate, x.pcm, pcm_eff ? 1 : 0, x.chips, SCEN_NAME[x.scen], x.key, g_rs, g_longhold ? " long hold" : "");
     I.hook0 = P(I.dev)->m_verifFramesOut;
     for(int ch = 0; ch < 16; ch++)
     {
@@ -452,6 +454,7 @@ static size_t hold_frames(const Cell &x, long rate, int key)
     double ms;
     if(is_nuked(x.core)) ms = std::min(200.0, std::max(100.0, 30e3 / f));
     else ms = std::max(200.0, 20e3 / f);
+    if(g_longhold && !is_nuked(x.core)) ms = 1200.0;      // a quarter of the cases hold the note for more than a second: it has to stay audible
     return (size_t)ceil((SKIP_MS + ms) * 1e-3 * (double)rate);
 }
 
@@ -643,6 +646,7 @@ static void run_case(Case &c)
 {
     g_dbg = getenv("VERIF_C20_DEBUG") != NULL;
     Cell x = decode(c);
+    g_rs = (int)((c.k / 3) % 4); g_longhold = (c.k % 4) == 1;
     Inst I;
     Ctx t(c, I, x);
     t.tag = vfmt("core-%d", x.core);
